@@ -273,9 +273,17 @@ func fixedScenarios() []fixed {
 		sc.Bursts = []burst{{Frames: 30, MinSz: 1, MaxSz: 500}}
 	})
 	for _, mf := range []int{0, 255, 128, 8} {
-		mk(fmt.Sprintf("maxframe-%d", mf), func(sc *scenario) { sc.MaxFrame, sc.TTLMax = mf, 2; sc.Writes = []int{5, 300, 5, 2000}; sc.End = "app-close" })
+		mk(fmt.Sprintf("maxframe-%d", mf), func(sc *scenario) {
+			sc.MaxFrame, sc.TTLMax = mf, 2
+			sc.Writes = []int{5, 300, 5, 2000}
+			sc.End = "app-close"
+		})
 	}
-	mk("maxframe-0-tcp-accept", func(sc *scenario) { sc.Link, sc.Seg, sc.Mode = "tcp", "cut10", "accept"; sc.MaxFrame, sc.TTLMax = 0, 3; sc.Writes = []int{700, 1, 90} })
+	mk("maxframe-0-tcp-accept", func(sc *scenario) {
+		sc.Link, sc.Seg, sc.Mode = "tcp", "cut10", "accept"
+		sc.MaxFrame, sc.TTLMax = 0, 3
+		sc.Writes = []int{700, 1, 90}
+	})
 	mk("maxframe-1-ttl-3", func(sc *scenario) { sc.MaxFrame, sc.TTLMax = 1, 3; sc.Writes = []int{5, 5, 5, 5}; sc.End = "app-close" })
 	// misbehaving TNC: must never crash the process
 	mk("malformed-short-X-0", func(sc *scenario) { sc.ShortX = 0 })
